@@ -19,7 +19,7 @@ RULE = ("all labelled graphs <= 4 vertices x num_regions 1..3 x all labelings in
         "one evaluation = one solve vs definition; distinct by (graph, labeling, flags, roots, form)")
 ASSUMPTIONS = ["z3 decides the posted program correctly (SAT re-validated by M-SOLVE)",
                "labels outside 0..num_regions-1 are outside the statement and not generated"]
-REQUIRED = ["div.cases", "div.want.valid", "div.want.invalid", "div.roots", "div.allow_empty", "div.primitive", "div.grid",
+REQUIRED = ["div.winding_boards", "div.long_paths", "div.cases", "div.want.valid", "div.want.invalid", "div.roots", "div.allow_empty", "div.primitive", "div.grid",
             "div.form.list", "div.form.const", "div.form.array", "div.accepted_set_solves", "msolve.model_checked", "mwire.exchanges"]
 
 
@@ -176,6 +176,50 @@ def run(ctx):
             labels[rng.randrange(9)] = rng.randrange(k)
         with ctx.guard(300):
             one(ctx, 9, edges, labels, k, rng.random() < 0.3, rng.choice([None, [seeds[0]] + [None] * (k - 1)]), False, "array", be, (3, 3))
+    # boards too large to enumerate: a long winding region (depth = length) plus the components it leaves, on 4x5 .. 7x7 boards,
+    # and long path graphs rooted at one end (the spanning-forest ranks must reach n - 1); invalid variants by merging two classes
+    # that do not touch / cutting the worm
+    for t in range(3 if not thorough else 40):
+        h, w = rng.choice([(4, 5), (5, 5), (5, 6), (6, 6), (3, 8), (7, 7), (2, 10)])
+        wm = D.worm(rng, h, w)
+        rest = D.components_of(h, w, {(y, x) for y in range(h) for x in range(w)} - set(wm))
+        if len(rest) > 5:
+            rest.sort(key=len)
+            # too many classes for a quick solve: give the smallest leftovers to the worm's class only if they touch it, else skip
+            continue
+        k = 1 + len(rest)
+        lab = {c: 0 for c in wm}
+        for i, comp in enumerate(rest):
+            for c in comp:
+                lab[c] = i + 1
+        labels = [lab[(y, x)] for y in range(h) for x in range(w)]
+        edges = G.grid_edges(h, w)
+        end = wm[0][0] * w + wm[0][1]
+        variants = [("valid", labels, k, [end] + [None] * (k - 1)), ("valid", labels, k, None)]
+        if len(wm) >= 5:
+            cut = wm[len(wm) // 2]
+            l2 = list(labels)
+            l2[cut[0] * w + cut[1]] = k  # the middle cell becomes a class of its own: class 0 falls apart
+            variants.append(("cut", l2, k + 1, None))
+        if len(rest) >= 2:
+            l3 = [1 if x == 2 else x for x in labels]
+            variants.append(("merged", l3, k, None))  # class 2 empty (-> needs allow_empty) and class 1 maybe disconnected
+        for what, ls, kk, roots in variants:
+            with ctx.guard(300):
+                one(ctx, h * w, edges, ls, kk, what == "merged", roots, False, "array", be, (h, w))
+            ctx.count("div.winding_boards")
+        if len(wm) - 1 >= 10:
+            ctx.count("div.winding_depth_ge10")
+    for t in range(2 if not thorough else 20):
+        n = rng.randint(9, 18)
+        order = list(range(n))
+        rng.shuffle(order)
+        edges = [(order[i], order[i + 1]) for i in range(n - 1)]
+        with ctx.guard(300):
+            one(ctx, n, edges, [0] * n, 1, False, [order[0]], False, "array", be, None)
+            cutv = order[n // 2]
+            one(ctx, n, edges, [1 if v == cutv else 0 for v in range(n)], 2, False, [order[-1], None], False, "list", be, None)
+        ctx.count("div.long_paths")
     if thorough or ctx.shard == 0:
         for allow in (False, True):
             oset = {p for p in itertools.product(range(2), repeat=6) if G.classes_connected(6, G.grid_edges(2, 3), p, 2, allow)}
